@@ -134,7 +134,7 @@ impl Ctx {
             if p == phase && i < n {
                 self.cur = (phase, i);
                 let mut rng = Rng::new(self.case_seed(phase, i));
-                f(self, &mut rng, i);
+                self.run_case(&mut f, &mut rng, i);
             }
             return;
         }
@@ -143,8 +143,25 @@ impl Ctx {
             self.cur = (phase, i);
             self.journal_write();
             let mut rng = Rng::new(self.case_seed(phase, i));
-            f(self, &mut rng, i);
+            self.run_case(&mut f, &mut rng, i);
             i += self.nshards;
+        }
+    }
+    /// Runs one case. A panic that escapes the case (the check called the library outside `no_panic`) is attributed by the
+    /// location the panic hook recorded: inside the library's sources it is a violation (the library panicked on an input of
+    /// the property's domain instead of answering); anywhere else (harness code, unknown) the shard dies as before and the
+    /// run is INCONCLUSIVE.
+    fn run_case(&mut self, f: &mut impl FnMut(&mut Ctx, &mut Rng, u64), rng: &mut Rng, i: u64) {
+        match guard(|| f(self, rng, i)) {
+            Ok(()) => {}
+            Err(p) => {
+                let in_library = p.file.contains("repo/src/") && !p.file.contains("harness");
+                if !in_library { eprintln!("panic outside the library at {}:{}: {}", p.file, p.line, p.msg); std::process::exit(101); }
+                let sig = p.sig().replacen("panic:", "panic:escaped:", 1);
+                let what = format!("the library panicked at {}:{} while the check was querying it: {}", p.file, p.line, p.msg);
+                self.count("panic.escaped");
+                self.violation(&sig, what, Json::obj().set("note", "replay with the recorded phase/index"));
+            }
         }
     }
     /// Split an exhaustive index space `0..n` into contiguous slices for this shard.
